@@ -6,6 +6,7 @@
 //                        W_CALLBACK  0 std::function   | 1 the tracked functor itself as Policies::Callback
 //                        W_FILL      byte the object storage holds before construction
 #include "common.h"
+#include "fault.h"
 #include <eventpp/callbacklist.h>
 #include <eventpp/utilities/eventutil.h>
 #include <functional>
@@ -24,13 +25,14 @@
 using namespace vf;
 
 static void onCall(int cbid, int arg);
+struct Thrown { int cbid; };      // what a scripted throwing callback throws
 
 // tracked callback object: every construction and destruction is counted
 struct Cb
 {
 	int id;
-	explicit Cb(int id = 0) : id(id) { ++g_live; regAdd(this); }
-	Cb(const Cb & o) : id(o.id) { regUse(&o); ++g_live; regAdd(this); }
+	explicit Cb(int id = 0) : id(id) { regAdd(this); ++g_live; }
+	Cb(const Cb & o) : id(o.id) { regUse(&o); copyFaultPoint(); regAdd(this); ++g_live; }
 	Cb & operator = (const Cb & o) { regUse(&o); regUse(this); id = o.id; return *this; }
 	~Cb() { regDel(this); --g_live; }
 	void operator() (int arg) const { regUse(this); onCall(id, arg); }
@@ -117,7 +119,8 @@ static void enumerate(int l, int stop)
 static void invoke(int l, int arg)
 {
 	ev("vb", l, arg, 0, 0);
-	(*L[l])(arg);
+	try { (*L[l])(arg); }
+	catch(const Thrown & t) { ev("vx", l, t.cbid, 0, 0); return; }       // the exception reached the caller of the invocation
 	ev("ve", l, 0, 0, 0);
 }
 
@@ -159,8 +162,13 @@ static void onCall(int cbid, int arg)
 {
 	ev("en", 0, cbid, arg, 0);
 	++g_depth;
-	while(ip < script.size()) { if(! step()) break; }
+	bool thrown = false;
+	while(ip < script.size()) {
+		if(script[ip].k == "x") { ++ip; thrown = true; break; }      // the callback throws
+		if(! step()) break;
+	}
 	--g_depth;
+	if(thrown) { ev("xt", 0, cbid, 0, 0); throw Thrown{cbid}; }
 	ev("rt", 0, cbid, 0, 0);
 }
 
@@ -182,7 +190,7 @@ static void epilogue()
 	for(int l = 1; l <= MaxL; ++l) if(L[l]) { invoke(l, 8); ev("e", l, 0, 0, L[l]->empty() ? 1 : 0); }
 	for(int l = 1; l <= MaxL; ++l) if(L[l]) { L[l]->~CL(); L[l] = 0; ev("d", l, 0, 0, 0); }
 	H.clear();
-	ev("rs", 0, 0, 0, 0);
+	std::fprintf(g_out, "{\"e\":\"rs\",\"o\":0,\"a\":0,\"b\":0,\"r\":0,\"lv\":%ld,\"n\":%ld}\n", g_live, g_script);
 }
 
 int main(int argc, char ** argv)
@@ -193,10 +201,40 @@ int main(int argc, char ** argv)
 	static char buf[1 << 20];
 	std::setvbuf(g_out, buf, _IOFBF, sizeof(buf));
 	std::set_terminate(onTerminate);
+	const bool faultMode = argc > 2 && std::string(argv[2]) == "--fault";
+	const int faultKinds = argc > 3 ? std::atoi(argv[3]) : 3;
+	long faultRuns = 0, faultsFired = 0;
+	H.reserve(256);
 	std::string line;
 	while(std::getline(std::cin, line)) {
 		if(! parseScript(line, script)) continue;
 		armWatchdog(20);
+		if(faultMode) {
+			// the last operation of the script is attempted with the k-th fault point armed, for k = 1, 2, ... until it completes untouched
+			for(long k = 1; k < 64; ++k) {
+				for(int l = 1; l <= MaxL; ++l) L[l] = 0;
+				H.clear();
+				construct(1);
+				ip = 0; g_nested = g_stale = false;
+				while(ip + 1 < script.size()) step();
+				bool threw = false;
+				if(ip >= script.size()) { epilogue(); break; }      // the last operation ran inside a callback: not a fault target
+				armFault(k, faultKinds);
+				try { step(); }
+				catch(const std::bad_alloc &) { threw = true; }
+				catch(const Fault &) { threw = true; }
+				const bool fired = g_faultFired;
+				disarmFault();
+				if(threw) ev("xf", 0, (int)k, 0, 0);          // the operation threw: the caller sees the exception, nothing else happened
+				else if(fired) ev("xs", 0, (int)k, 0, 0);     // a fault fired but the operation swallowed it
+				epilogue();
+				++faultRuns;
+				if(fired) ++faultsFired;
+				if(! fired) break;
+			}
+			++g_script;
+			continue;
+		}
 		for(int l = 1; l <= MaxL; ++l) L[l] = 0;
 		construct(1);
 		ip = 0; g_nested = g_stale = false;
@@ -210,6 +248,6 @@ int main(int argc, char ** argv)
 	}
 	alarm(0);
 	std::fclose(g_out);
-	std::fprintf(stderr, "STATS {\"scripts\":%ld,\"nontrivial\":%ld,\"nested\":%ld,\"stale_handle\":%ld,\"near_wrap\":%ld}\n", g_script, g_nNontrivial, g_nNested, g_nStale, g_nWrap);
+	std::fprintf(stderr, "STATS {\"scripts\":%ld,\"nontrivial\":%ld,\"nested\":%ld,\"stale_handle\":%ld,\"near_wrap\":%ld,\"fault_runs\":%ld,\"faults_fired\":%ld}\n", g_script, g_nNontrivial, g_nNested, g_nStale, g_nWrap, faultRuns, faultsFired);
 	return 0;
 }
